@@ -29,8 +29,8 @@ func main() {
 		out.Flush()
 	}
 	say("OPENING")
-	// the options the pool binary uses (pool.go): badger.DefaultOptions(dir)
-	st, err := badgerstore.Open(badger.DefaultOptions(dir).WithLogger(nil))
+	// the options the pool binary uses (pool.go): badger.DefaultOptions(dir).WithTruncate(true)
+	st, err := badgerstore.Open(badger.DefaultOptions(dir).WithTruncate(true).WithLogger(nil))
 	if err != nil {
 		say("OPENFAIL %v", err)
 		os.Exit(3)
